@@ -132,3 +132,25 @@ def monitor_lines(sc, impl, names):
 
 def run_impl(sc):
     return consumer_run.run_scenario(sc)
+
+
+def first_failing_prefix(run_model, sc, impl, name):
+    """Smallest number of events whose IMPLEMENTATION trace the monitor `name` rejects (None if it accepts all)."""
+    n = len(sc["events"])
+    lines = [cfg_line(sc["cfg"])]
+    for i in range(1, n + 1):
+        sub = dict(sc, events=sc["events"][:i])
+        lines += trace_lines(sub, impl[:i]) + ["mon " + name]
+    out = run_model("consumer", lines)
+    verdicts = [o for o in out if o in (["ok"], ["fail"])]
+    # the answers to `new` and `tr-reset` are ["ok"] too: pick the answers of the `mon` requests by position
+    pos, res = 1, []
+    for i in range(1, n + 1):
+        sub = dict(sc, events=sc["events"][:i])
+        pos += len(trace_lines(sub, impl[:i]))
+        res.append(out[pos])
+        pos += 1
+    for i, r in enumerate(res):
+        if r != ["ok"]:
+            return i + 1
+    return None
